@@ -23,7 +23,10 @@ def gen_ili_file(rng):
             row['status'] = rng.choice(['active', 'provisional', 'deprecated', 'weird status'])
         if 'definition' in cols:
             row['definition'] = rng.choice(['def of ' + i, '', 'x < y & "z"', '"quoted" at the start of ' + i,
-                                            '"unbalanced quote in ' + i, "it's " + i, 'ends with a quote "' ])
+                                            '"unbalanced quote in ' + i, "it's " + i, 'ends with a quote "',
+                                            # characters that str.splitlines() breaks at but a file object does not
+                                            'line\u2028separator in ' + i, 'next\x85line ' + i, 'form\x0cfeed, fs\x1c gs\x1d ' + i,
+                                            'v\x0btab and para\u2029graph'])
         fields = [row.get(c, '') for c in cols]
         if rng.random() < 0.35 and len(fields) > 1:
             fields = fields[:-1]              # a short line: the last column is missing
